@@ -22,7 +22,7 @@ def run(tier, seed, flavour="plain"):
     od = core.run_dir("C02", tier)
     paths = core.build(targets(flavour))
     res = core.run_sharded([{"name": "c02_entry", "binary": paths["c02_entry"], "nshards": core.NCPU, "out": od,
-                             "args": ["--seed", str(seed), "--tier", tier] + core.deep(tier, values=400),
+                             "args": ["--seed", str(seed), "--tier", tier] + core.deep(tier, values=400) + core.boost(tier, flavour, values=40),
                              "env": core.SAN_ENV if flavour == "san" else None}], timeout=3600)
     V.absorb(res)
     m = core.merge_summaries(res)
